@@ -123,6 +123,34 @@ func runOne(w *World, id, tier, root string, seed int, start time.Time) (code in
 	props[id].Run(c)
 	if tier == "thorough" {
 		c.thoroughExtras()
+		// second pass on the GOARCH=386 build of the tree (other build-tagged files, 32-bit sizes)
+		if w2, err := loadWorld(w.RepoDir, "thorough-386", "386", false); err != nil {
+			c.Notes = append(c.Notes, "thorough: GOARCH=386 variant not analysed: "+err.Error())
+		} else {
+			c2 := &Check{W: w2, Prop: id, Tier: tier, Root: root, seen: map[string]*Ob{}, start: start, Expl: props[id].Expl}
+			props[id].Run(c2)
+			bad := 0
+			for _, o := range c2.Obs {
+				if !o.OK {
+					if prev, dup := c.seen[o.Key()]; dup && !prev.OK {
+						continue // same finding as in the amd64 pass
+					}
+					bad++
+					o.Fn = "[GOARCH=386] " + o.Fn
+					if _, dup := c.seen[o.Key()]; !dup {
+						c.seen[o.Key()] = o
+						c.Obs = append(c.Obs, o)
+						for _, r := range c.Rules {
+							if r.ID == o.Rule {
+								r.Sites++
+								r.Violations++
+							}
+						}
+					}
+				}
+			}
+			c.Notes = append(c.Notes, fmt.Sprintf("thorough: GOARCH=386 variant analysed: %d files, %d obligations, %d failing", w2.Files, len(c2.Obs), bad))
+		}
 	}
 	return c.Finish(seed)
 }
